@@ -423,7 +423,9 @@ def fam_bound(tier, rng):
     out9 = lambda i: struct.pack("<Q", 1000 + i) + b"\x00"
     out10 = lambda i: struct.pack("<Q", 1000 + i) + b"\x01" + bytes([i % 251 + 1])
     inp = lambda i: pat.take(32) + struct.pack("<I", i) + b"\x00" + struct.pack("<I", 0xFFFFFF00 + i % 256)
-    for n in (252, 253, 254) + ((65535, 65536) if tier == "thorough" else ()):
+    # (the list-based model is quadratic in the element count: 65535-element lists are out of reach for it; the
+    #  65535/65536 thresholds are exercised on lengths, on `scan`, and on `redbraw txouts` instead)
+    for n in (252, 253, 254) + ((1000, 4000) if tier == "thorough" else ()):
         outs = cs(n) + b"".join((out9(i) if i % 2 else out10(i)) for i in range(n))
         ops.append(f"visit txouts n {hx(outs)}")
         ops.append(f"visit txouts b{n - 1} {hx(outs)}")
